@@ -18,6 +18,7 @@ var (
 	rePrevented = regexp.MustCompile(`is prevented from injecting by wire`)
 	reNotString = regexp.MustCompile(`must be a string with the field name`)
 	reTooMany   = regexp.MustCompile(`fields number exceeds`)
+	reHidden    = regexp.MustCompile(`is unexported in package .* and cannot be set`)
 )
 
 // runFieldStreams: random struct types (fields whose names differ only in letter case, every tag
@@ -25,6 +26,7 @@ var (
 // non-literals) through the real processStructProvider and processFieldsOf.
 func runFieldStreams(out *vOut, r *rand.Rand, n int) {
 	pkg := types.NewPackage("example.com/p", "p")
+	other := types.NewPackage("example.com/other", "other") // the struct type may be defined from another package's struct
 	fset := token.NewFileSet()
 	names := []string{"Foo", "foo", "FOO", "Bar", "bar", "baz", "X", "x", "Fo", "_", "_foo", "__", "_", "_Bar"}
 	tags := []struct {
@@ -50,6 +52,7 @@ func runFieldStreams(out *vOut, r *rand.Rand, n int) {
 	}
 	for i := 0; i < n; i++ {
 		nf := r.Intn(6)
+		foreign := r.Intn(4) == 0
 		perm := r.Perm(len(names))[:nf]
 		var fields []*types.Var
 		var tgs []string
@@ -62,9 +65,16 @@ func runFieldStreams(out *vOut, r *rand.Rand, n int) {
 			if ty >= nTypes {
 				ft = types.NewPointer(canon[ty-nTypes])
 			}
-			fields = append(fields, types.NewField(token.NoPos, pkg, names[p], ft, false))
+			// one struct in four is `type S other.T`: its fields belong to package other, and the unexported ones
+			// cannot be set from anywhere else
+			fpkg := pkg
+			if foreign {
+				fpkg = other
+			}
+			fld := types.NewField(token.NoPos, fpkg, names[p], ft, false)
+			fields = append(fields, fld)
 			tgs = append(tgs, tg.tag)
-			decl = append(decl, fmt.Sprintf("%s %d %d", eq(names[p]), ty, b2i(tg.prevented)))
+			decl = append(decl, fmt.Sprintf("%s %d %d %d", eq(names[p]), ty, b2i(tg.prevented), b2i(foreign && !fld.Exported())))
 		}
 		st := types.NewStruct(fields, tgs)
 		named := types.NewNamed(types.NewTypeName(token.NoPos, pkg, "S", nil), st, nil)
@@ -131,6 +141,8 @@ func runFieldStreams(out *vOut, r *rand.Rand, n int) {
 				return "err notstring"
 			case reTooMany.MatchString(msg):
 				return "err toomany"
+			case reHidden.MatchString(msg):
+				return "err hidden"
 			}
 			if m := reDupArg.FindStringSubmatch(msg); m != nil {
 				return fmt.Sprintf("err dup:%d", strID[m[1]])
